@@ -14,6 +14,7 @@ import Mashu.Lazy
 import Mashu.Share
 import Mashu.Hooks
 import Mashu.Namespace
+import Mashu.Schema
 import Mashu.Generated
 open Lean
 
@@ -350,6 +351,42 @@ def natList (j : Json) : Except String (List Nat) := do
     | .num n => if n.exponent == 0 && n.mantissa ≥ 0 then pure n.mantissa.toNat else throw "bad code point"
     | _ => throw "bad code point")
 
+/-- C06 / C20: the schema document the model predicts -/
+partial def schToJson : Schema.Sch → Json
+  | .any => Json.mkObj []
+  | .typ t fmt =>
+      let tn := match t with
+        | .null => "null" | .boolean => "boolean" | .integer => "integer" | .number => "number" | .string => "string"
+      Json.mkObj ([("type", Json.str tn)] ++ (match fmt with | some f => [("format", Json.str f)] | none => []))
+  | .utc => Json.mkObj [("type", Json.str "string"), ("pattern", Json.str Mashu.Generated.utcPatternSchema)]
+  | .enum vals c =>
+      match vals, c with
+      | [v], true => Json.mkObj [("const", ofV v)]
+      | _, _ => Json.mkObj [("enum", Json.arr (vals.map ofV).toArray)]
+  | .anyOf ss => Json.mkObj [("anyOf", Json.arr (ss.map schToJson).toArray)]
+  | .arrOf items u =>
+      Json.mkObj ([("type", Json.str "array")]
+        ++ (match items with | .any => [] | s => [("items", schToJson s)])
+        ++ (if u then [("uniqueItems", Json.bool true)] else []))
+  | .tupleOf pre =>
+      if pre.isEmpty then Json.mkObj [("type", Json.str "array"), ("maxItems", Json.num 0)]
+      else Json.mkObj [("type", Json.str "array"), ("prefixItems", Json.arr (pre.map schToJson).toArray),
+                       ("minItems", Json.num (JsonNumber.fromNat pre.length)), ("maxItems", Json.num (JsonNumber.fromNat pre.length))]
+  | .mapOf names vals =>
+      Json.mkObj ([("type", Json.str "object")]
+        ++ (match vals with | .any => [] | s => [("additionalProperties", schToJson s)])
+        ++ (match names with | .any => [] | s => [("propertyNames", schToJson s)]))
+  | .record title props req =>
+      Json.mkObj ([("type", Json.str "object")]
+        ++ (match title with | some t => [("title", Json.str t)] | none => [])
+        ++ (if props.isEmpty then [] else [("properties", Json.mkObj (props.map (fun p => (p.1, schToJson p.2))))])
+        ++ [("additionalProperties", Json.bool false)]
+        ++ (if req.isEmpty then [] else [("required", Json.arr (req.map Json.str).toArray)]))
+
+def dispatchSchema (j : Json) : Except String Json := do
+  let ty ← toTy (j.getObjValD "ty")
+  pure (Json.mkObj [("schema", schToJson (Schema.schemaOf (getB j "nt_as_dict") ty))])
+
 /-- C17: replay of the registrations of one builder; clean_id -/
 def dispatchNamespace (op : String) (j : Json) : Except String Json := do
   match op with
@@ -402,6 +439,7 @@ def dispatch (j : Json) : Except String Json := do
   | "share" => dispatchShare j
   | "hooks" => dispatchHooks j
   | "namespace" | "cleanid" => dispatchNamespace op j
+  | "schema" => dispatchSchema j
   | _ => throw s!"unknown op {op}"
 
 end Mashu
